@@ -1,4 +1,5 @@
 import Aiorpcx.C20.Model
+import Aiorpcx.C20.TimedProps
 import Aiorpcx.C13.Props
 import Aiorpcx.C14.Lemmas
 import Aiorpcx.C13.Table
@@ -401,6 +402,69 @@ non-positive target_response_time) the outgoing limit after every completion is 
 operation is exact and no rounding tie can occur.) -/
 theorem facts_flow_table :
     Facts.C20.flowTable.all flowRowOk = true ∧ 10 ≤ Facts.C20.flowTable.length := by
+  decide +kernel
+
+/-! ### (iii) the timed model against what callers get and when -/
+
+open Table in
+/-- read `n` environment actions (time num den, kind, id, request_count) as timed operations: wait
+until the action's time, then perform it -/
+def takeEnv : Nat → Rat → List Int → Option (List TOp × Rat × List Int)
+  | 0, now, l => some ([], now, l)
+  | n + 1, now, tn :: td :: kind :: i :: cnt :: l =>
+      let t := ratOf tn td
+      let op : TOp := if kind = 0 then .call i.toNat cnt.toNat else if kind = 1 then .answer i.toNat else .lose
+      (takeEnv n t l).map (fun r => (.wait (t - now) :: op :: r.1, r.2))
+  | _ + 1, _, _ => none
+
+def writtenAt (i : Nat) : List TEv → Option Rat
+  | [] => none
+  | .written j t :: r => if j = i then some t else writtenAt i r
+  | _ :: r => writtenAt i r
+
+def endOf (i : Nat) : List TEv → Option (Rat × EndKind)
+  | [] => none
+  | .ended j _ t k :: r => if j = i then some (t, k) else endOf i r
+  | _ :: r => endOf i r
+
+def kindCode : EndKind → List Int
+  | .answered => [0, 1]
+  | .timedOut => [2]
+  | .cancelled => [3]
+
+open Table in
+/-- per caller: written?, write time, outcome, outcome time — as the model has them -/
+def checkCallers (evs : List TEv) : Nat → Nat → List Int → Bool
+  | _, 0, [] => true
+  | i, n + 1, hw :: wn :: wd :: k :: tn :: td :: rest =>
+      (match writtenAt i evs with
+       | some w => decide (hw = 1) && decide (w = ratOf wn wd)
+       | none => decide (hw = 0)) &&
+      (match endOf i evs with
+       | some (t, kind) => decide (k ∈ kindCode kind) && decide (t = ratOf tn td)
+       | none => false) && checkCallers evs (i + 1) n rest
+  | _, _, _ => false
+
+def outcomeRowOk (row : List Int) : Bool :=
+  match row with
+  | L :: tn :: td :: nenv :: rest =>
+      match takeEnv nenv.toNat 0 rest with
+      | some (ops, last, n :: obs) =>
+          let τ := Table.ratOf tn td
+          let r := trun ⟨3, 1000000⟩ τ (tinit L.toNat) (ops ++ [.wait (τ * (n + 3) + last + 1)])
+          checkCallers r.2 0 n.toNat obs
+      | _ => false
+  | _ => false
+
+/-- **What callers get and when** (part iii against the code): on a live client session whose
+outgoing limiter was first brought to limit L through the public API, for silent peers, peers that
+answer after a delay (all or only some requests) and connections that are lost: every caller's
+request is written when the timed model says (the excess over the limit only when a slot frees),
+and every call ends when and how the timed model says — `TaskTimeout` exactly
+`sent_request_timeout` after the write, the result when the answer arrives, cancellation at the
+moment of the loss, also for callers still queued. -/
+theorem facts_outcome_table :
+    Facts.C20.outcomeTable.all outcomeRowOk = true ∧ 12 ≤ Facts.C20.outcomeTable.length := by
   decide +kernel
 
 /-! ## non-vacuity -/
